@@ -102,3 +102,25 @@ def bincount(x, minlength=0):
             tot = tot + z3.If(SInt.tz(e) == v, 1, 0)
         out[v] = SInt(tot)
     return out
+
+
+# ------------------------------------------------------------------ scipy.optimize
+
+def fsolve(func, x0, args=(), **kw):
+    """contract: returns [r] with func(r, *args) = 0 (plus an optional branch selector the harness derives from the guess)"""
+    c = Ctx.cur
+    if not isinstance(args, tuple):
+        args = (args,)
+    probe = None
+    sym = any(_symarr(a) or isinstance(a, (SV, SInt)) for a in args)
+    if not sym:
+        return _scipy.optimize.fsolve(func, x0, args=args, **kw)
+    r = SV(c.newvar('root'))
+    val = func(r, *args)
+    val = _np.asarray(val, dtype=object).ravel()[0]
+    c.fact(tz(val) == 0)
+    sel = getattr(c, 'root_selector', None)
+    if sel is not None:
+        c.assume(sel(r))
+    c.roots = getattr(c, 'roots', []) + [r]
+    return _np.array([r], dtype=object)
